@@ -111,4 +111,6 @@ def obligations():
     c02 = {o.ob_id: o for o in C02.obligations()}
     for k, new in [('O2.3-blocks-proof-gates', 'O16.2-header-store-gates'), ('O2.4-txs-proof-gates', 'O16.2-tx-store-gates')]:
         o = c02[k]; o.ob_id = new; obs.append(o)
+    import C03
+    obs.append(C03.fetched_rows('O16.6-fetched-rows'))
     return obs
